@@ -209,7 +209,7 @@ func c05Rogue(op []string, n int, l c05Sem) string {
 	wg.Wait()
 	free := c05Probe(l, n)
 	// leave the object empty for the next op of the section
-	for l.Return() == nil {
+	for i := 0; i <= 4*n+8 && l.Return() == nil; i++ {
 	}
 	return fmt.Sprintf("borrows=%d returns=%d errs=%d free=%d", borrows, returns, errs, free)
 }
